@@ -187,6 +187,9 @@ func checkC18(c *Ctx) {
 		// format() texts whose last byte is a backslash (there are no string escapes), lone break codes
 		"text T {\n    format(\"Wait...\\\")\n}\n", "script S {\n    msgbox(format(\"a \\\\\"))\n    msgbox(format(\"\\\"))\n    msgbox(format(\"\\n\\\"))\n}\n",
 		"text T {\n    format(\"{\\\")\n}\ntext U {\n    format(\"x {A\\\")\n}\n",
+		// long comments with multi-byte characters around the 64 / 128 / 256 byte marks, also as the last line
+		"# " + strings.Repeat("x", 61) + "ééé tail\nscript S {\n    x // " + strings.Repeat("y", 59) + "日本語 and more\n}\n",
+		"script S {\n    x\n}\n#" + strings.Repeat("z", 62) + "é", "//" + strings.Repeat("z", 125) + "日本語日本語", "# " + strings.Repeat("w", 253) + "€€€\nscript S {\n}\n",
 		// very large numeric parameters and multipliers
 		"text T {\n    format(\"Hello there you\", 4611686018427387904)\n}\ntext U {\n    format(\"Hello there you\", 9223372036854775807)\n}\n",
 		"script S {\n    msgbox(format(\"Hello there you\", numLines=9223372036854775807, cursorOverlapWidth=4611686018427387904))\n    msgbox(format(\"a b\", maxLineLength=99999999999999999999999))\n}\n",
